@@ -128,10 +128,72 @@ def FLOORS(tier):
 # ------------------------------------------------------------------------------------------
 
 EDGE_KINDS = ['explicit', 'explicit', 'resource', 'resource', 'both', 'group', 'group_member']
+RES_KINDS = ('resource', 'group', 'group_member')
+
+# ---- python jobs (PythonJob.call): how a consumed resource reaches the call ----
+# a python producer offers its PythonResult itself (python consumers only) or one of the files derived from it
+PY_FILE_REFS = ['as_str', 'as_json', 'as_repr']
+PY_CONTAINERS = ['list', 'tuple', 'tuple', 'dict']
+BASH_REF = {'resource': 'out', 'both': 'out', 'group': 'grp', 'group_member': 'grp.a'}
 
 
-def gen_case(rng):
-    n = rng.choice([1, 2, 2, 3, 3, 4, 4, 5, 5, 6, 6, 7, 8, 8])
+def gen_call_tree(rng, n_parts, own):
+    """the argument list of one PythonJob.call(): leaves are the consumed resources (`part i`), optionally the job's own
+    earlier result (`own`: source is the job itself, so no dependency may arise from it) and plain values; random
+    contiguous runs of items are wrapped 0..3 times into a list / tuple / dict; the top-level items are passed
+    positionally, the last 0..all of them as keyword arguments.  Returns [[is_keyword, node], ...]."""
+    items = [['part', i] for i in range(n_parts)]
+    if own:
+        items.insert(rng.randint(0, len(items)), ['own'])
+    for _ in range(rng.choice([0, 0, 1, 2])):
+        items.insert(rng.randint(0, len(items)), [rng.choice(['none', 'num'])])
+    for _ in range(rng.choice([0, 1, 1, 2, 2, 3])):
+        lo = rng.randrange(len(items))
+        hi = rng.randint(lo + 1, min(len(items), lo + 3))
+        items[lo:hi] = [[rng.choice(PY_CONTAINERS), items[lo:hi]]]
+    n_kw = min(rng.choice([0, 0, 1, 1, len(items)]), len(items))
+    return [[i >= len(items) - n_kw, node] for i, node in enumerate(items)]
+
+
+def call_tree_paths(top):
+    """for every `part i`: the way from the call to the leaf, e.g. ('kw', 'tuple', 'list')"""
+    out = {}
+
+    def walk(node, path):
+        if node[0] == 'part':
+            out[node[1]] = path
+        elif node[0] in ('list', 'tuple', 'dict'):
+            for k in node[1]:
+                walk(k, path + (node[0],))
+
+    for is_kw, node in top:
+        walk(node, ('kw' if is_kw else 'pos',))
+    return out
+
+
+def gen_pycalls(rng, j, consumed, py, raw_ok):
+    """the .call()s by which python job j consumes `consumed` = [(d, kind)]: 1..3 producers per call"""
+    consumed = list(consumed)
+    rng.shuffle(consumed)
+    calls = []
+    while consumed:
+        k = rng.choice([1, 1, 1, 2, 3])
+        chunk, consumed = consumed[:k], consumed[k:]
+        parts = []
+        for d, kind in chunk:
+            if py[d]:
+                ref = rng.choice((['result', 'result', 'result'] if raw_ok else []) + PY_FILE_REFS)
+            else:
+                ref = BASH_REF[kind]
+            parts.append([d, kind, ref])
+        calls.append({'parts': parts, 'top': gen_call_tree(rng, len(parts), own=rng.random() < 0.3)})
+    return calls
+
+
+def gen_case(rng, py=None):
+    """py=None: bash jobs only (and exactly the draws of the bash-only generator).  py={'p': [...], 'n_max': n,
+    'force': p}: every job is a PythonJob with a probability drawn from 'p'."""
+    n = rng.choice([x for x in [1, 2, 2, 3, 3, 4, 4, 5, 5, 6, 6, 7, 8, 8] if py is None or x <= py.get('n_max', 8)])
     hidden = list(range(n))
     rng.shuffle(hidden)  # hidden[k] = job at position k of a valid order
     p_edge = rng.choice([0.15, 0.3, 0.3, 0.5, 0.8])
@@ -183,6 +245,24 @@ def gen_case(rng):
         fails[ja], always[ja] = True, True
         fails[jb], always[jb] = False, True
         always[jc] = False
+    py_flags = [False] * n
+    if py is not None:
+        p_py = rng.choice(py['p'])
+        py_flags = [rng.random() < p_py for _ in range(n)]
+        proper = sorted(e for e in edges if e[0] != e[1])
+        if proper and rng.random() < py.get('force', 0.0):
+            # make sure the class is reached: some dependent is a python job that consumes its dependency's resource
+            e = rng.choice(proper)
+            py_flags[e[0]] = True
+            if edges[e] == 'explicit':
+                edges[e] = rng.choice(['resource', 'resource', 'both'])
+            if not cyclic and rng.random() < py.get('fail_producer', 0.0):
+                # ... and has to be skipped because of it (a skipped python job costs no interpreter start)
+                fails[e[1]] = True
+                always[e[0]] = False
+        for e, k in edges.items():
+            if py_flags[e[1]] and k in ('group', 'group_member'):
+                edges[e] = 'resource'  # a PythonJob has no resource groups: its results (and the files derived from them) are consumed
     uses_group = [any(k in ('group', 'group_member') and d == j for (_, d), k in edges.items()) for j in range(n)]
 
     # ---- operations and their only constraints; then one random linear extension ----
@@ -198,11 +278,22 @@ def gen_case(rng):
     produce = [add(('produce', j, None), [create[j]]) for j in range(n)]
     flag = [add(('always_run', j, None), [create[j]]) if always[j] else None for j in range(n)]
     last_cmd = {j: [produce[j]] for j in range(n)}
+    py_consumed = {}
     for (j, d), kind in sorted(edges.items()):
         if kind in ('explicit', 'both'):
             add(('depends_on', j, d), [create[j], create[d]])
         if kind != 'explicit':
-            i = add(('consume', j, (d, kind)), [produce[j], produce[d]])
+            if py_flags[j]:
+                py_consumed.setdefault(j, []).append((d, kind))  # python consumer: grouped into .call()s below
+                continue
+            arg = (d, kind, rng.choice(PY_FILE_REFS)) if py_flags[d] else (d, kind)
+            i = add(('consume', j, arg), [produce[j], produce[d]])
+            last_cmd[j].append(i)
+    for j in sorted(py_consumed):
+        # a PythonResult itself is only handed to a consumer that cannot run without its producer having run (the
+        # wrapper of the repository unpickles it before the function is entered)
+        for call in gen_pycalls(rng, j, py_consumed[j], py_flags, raw_ok=py.get('raw') == 'always' or not always[j]):
+            i = add(('pycall', j, call), [produce[j]] + [produce[d] for d, _, _ in call['parts']])
             last_cmd[j].append(i)
     for j in range(n):
         add(('exit', j, None), last_cmd[j])
@@ -232,6 +323,7 @@ def gen_case(rng):
         'always': always,
         'fails': fails,
         'uses_group': uses_group,
+        'py': py_flags,
         'ops': [list(ops[i]) for i in order],
         'style': style,
     }
@@ -287,14 +379,147 @@ def model_outcome(case):
 # ------------------------------------------------------------------------------------------
 
 
-def apply_op(b, jobs, case, qlog, name, j, arg):
-    """one DSL call of a generated pipeline (`case` supplies uses_group / fails per job)"""
+# The functions that generated python jobs call.  They live in a module of their own, written below a mkdtemp() for the
+# duration of run(): the job subprocess (`python3 -c "... dill.load(func_file) ..."`, the repository's wrapper) must be
+# able to import them by name, and PythonJob._compile wants their source text.
+PYFUNCS_MODULE = 'vf_c17_pyfuncs'
+PYFUNCS_SOURCE = '''"""functions called by the python jobs that vf/monitors/c17.py generates (temporary file)"""
+import os
+
+
+def produce(log, j):
+    with open(log, 'a') as f:
+        f.write('RUN %d\\n' % j)
+    return j
+
+
+def _leaves(x, out):
+    if x is None or isinstance(x, float):
+        return
+    if isinstance(x, (str, int)):
+        out.append(x)
+    elif isinstance(x, dict):
+        if set(x) == {'a', 'b'}:
+            out.append(x)  # a ResourceGroup arrives as {member: path}
+        else:
+            for v in x.values():
+                _leaves(v, out)
+    elif isinstance(x, (list, tuple)):
+        for v in x:
+            _leaves(v, out)
+
+
+def consume(log, j, spec, *args, **kwargs):
+    """spec = [[d, ref], ...] in the order in which the consumed resources appear in args, kwargs (depth first)"""
+    found = []
+    _leaves(args, found)
+    _leaves(kwargs, found)
+    lines = []
+    for k, (d, ref) in enumerate(spec):
+        if ref == 'own':
+            continue
+        x = found[k] if k < len(found) else None
+        content = ''
+        try:
+            if ref == 'result':
+                content = str(x)
+            else:
+                path = x['b'] if ref == 'grp' else x
+                with open(path) as f:
+                    content = f.readline().rstrip('\\n')
+        except Exception:
+            content = ''
+        lines.append('READ %d %d %s\\n' % (j, d, content))
+    with open(log, 'a') as f:
+        f.write(''.join(lines))
+    return len(found)
+
+
+def fail(code):
+    os._exit(code)
+'''
+_PYF = {'mod': None}
+
+
+def build_call_args(top, leaves):
+    """the positional and keyword arguments of one PythonJob.call() from a gen_call_tree() description"""
+
+    def build(node):
+        t = node[0]
+        if t == 'part':
+            return leaves['part'][node[1]]
+        if t == 'own':
+            return leaves['own']
+        if t == 'none':
+            return None
+        if t == 'num':
+            return 1.5
+        kids = [build(k) for k in node[1]]
+        if t == 'list':
+            return kids
+        if t == 'tuple':
+            return tuple(kids)
+        return {f'd{i}': k for i, k in enumerate(kids)}
+
+    def order(node, out):
+        if node[0] in ('part', 'own'):
+            out.append(node)
+        elif node[0] in ('list', 'tuple', 'dict'):
+            for k in node[1]:
+                order(k, out)
+
+    args, kwargs, dfs = [], {}, []
+    for i, (is_kw, node) in enumerate(top):
+        order(node, dfs)
+        if is_kw:
+            kwargs[f'k{i}'] = build(node)
+        else:
+            args.append(build(node))
+    return args, kwargs, dfs
+
+
+def python_result_ref(res, ref):
+    return {'result': lambda: res, 'as_str': res.as_str, 'as_json': res.as_json, 'as_repr': res.as_repr}[ref]()
+
+
+def apply_op(b, jobs, case, qlog, name, j, arg, results=None):
+    """one DSL call of a generated pipeline (`case` supplies uses_group / fails / py per job; `results` keeps the first
+    PythonResult of every python job)"""
+    py = case.get('py') or ()
+    is_py = bool(py) and py[j]
+    if is_py and name in ('produce', 'pycall', 'exit'):
+        F = _PYF['mod']
+        log = shlex.split(qlog)[0]
+        if name == 'produce':
+            results[j] = jobs[j].call(F.produce, log, j)
+        elif name == 'exit':
+            if case['fails'][j]:
+                jobs[j].call(F.fail, 1)
+        else:
+            parts = []
+            for d, kind, ref in arg['parts']:
+                if py[d]:
+                    parts.append(python_result_ref(results[d], ref))
+                else:
+                    parts.append({'out': lambda s: s.out, 'grp': lambda s: s.grp, 'grp.a': lambda s: s.grp.a}[ref](jobs[d]))
+            args, kwargs, dfs = build_call_args(arg['top'], {'part': parts, 'own': results[j]})
+            spec = [[j, 'own'] if node[0] == 'own' else [arg['parts'][node[1]][0], arg['parts'][node[1]][2]] for node in dfs]
+            jobs[j].call(F.consume, log, j, spec, *args, **kwargs)
+        return
     if name == 'create':
-        jobs[j] = b.new_job(name=f'job{j}' if j % 2 else None)
+        if is_py:
+            jobs[j] = b.new_python_job(name=f'job{j}' if j % 2 else None)
+        else:
+            jobs[j] = b.new_job(name=f'job{j}' if j % 2 else None)
     elif name == 'always_run':
         jobs[j].always_run()
     elif name == 'depends_on':
         jobs[j].depends_on(jobs[arg])
+    elif name == 'consume' and len(arg) == 3:
+        # bash consumer of a python producer: one of the files derived from the PythonResult
+        d, kind, ref = arg
+        fref = f'{python_result_ref(results[d], ref)}'
+        jobs[j].command(f'X=; {{ read -r X < {fref}; }} 2>/dev/null; echo "READ {j} {d} $X" >> {qlog}')
     elif name == 'produce':
         job = jobs[j]
         cmd = f'echo "RUN {j}" >> {qlog}\necho {j} > {job.out}'
@@ -336,8 +561,9 @@ def execute(hb, case):
         with warnings.catch_warnings(), contextlib.redirect_stdout(sink):
             warnings.simplefilter('ignore')
             try:
+                results = {}
                 for name, j, arg in case['ops']:
-                    apply_op(b, jobs, case, qlog, name, j, arg)
+                    apply_op(b, jobs, case, qlog, name, j, arg, results)
             except Exception as e:  # the DSL refused to build the pipeline: not something the generator intends
                 obs['build_error'] = repr(e)
                 return obs
@@ -381,10 +607,45 @@ def execute(hb, case):
 # ------------------------------------------------------------------------------------------
 
 
+def _pyc(case, j):
+    """is job j of the case / history a python job"""
+    py = case.get('py')
+    return bool(py) and bool(py[j])
+
+
+def count_python_calls(ctx, ops, pre):
+    """what the generated PythonJob.call()s looked like (pre = 'py_' executed single runs, 'plan_py_' recording backend)"""
+    for name, j, arg in ops:
+        if name == 'consume' and len(arg) == 3:
+            ctx.count(pre + 'bash_consumer_of_python_producer')
+        if name != 'pycall':
+            continue
+        ctx.count(pre + 'calls')
+        if len(arg['parts']) >= 2:
+            ctx.count(pre + 'calls_with_several_producers')
+        if 'own' in repr(arg['top']):
+            ctx.count(pre + 'calls_with_own_result')
+        paths = call_tree_paths(arg['top'])
+        for i, (d, kind, ref) in enumerate(arg['parts']):
+            path = paths[i]
+            ctx.count(pre + 'consumed_resources')
+            ctx.count(pre + ('arg_plain' if len(path) == 1 else 'arg_in_' + path[-1]))
+            if 'tuple' in path[1:-1] or 'list' in path[1:-1] or 'dict' in path[1:-1]:
+                ctx.count(pre + 'arg_nested')
+            if path[0] == 'kw':
+                ctx.count(pre + 'arg_keyword')
+            ctx.count(pre + 'ref_' + {'out': 'file', 'grp.a': 'file', 'grp': 'group', 'result': 'python_result'}.get(ref, 'converted_result_file'))
+            ctx.seen('py_arg_paths', '/'.join(path))
+
+
 def check(ctx, case, obs):
     n = case['n']
     deps = deps_of(case)
     w = {'case': case, 'observed': obs}
+    has_py = any(case.get('py') or ())
+    if has_py and not obs.get('build_error'):
+        ctx.count('py_pipelines')
+        count_python_calls(ctx, case['ops'], 'py_')
 
     if obs.get('build_error'):
         ctx.violation('build/dsl-refused-generated-pipeline', f"building the pipeline raised {obs['build_error']}", w)
@@ -404,6 +665,9 @@ def check(ctx, case, obs):
         else:
             ctx.count('cyclic_rejected_before_any_marker')
             ctx.seen('cycle_rejection_exception', obs['exception_type'])
+            cyc = _on_cycle(deps, n)
+            if any(j in cyc and d in cyc and k in RES_KINDS and _pyc(case, j) for j, d, k in case['edges']):
+                ctx.count('py_cycle_through_call_argument_rejected')
         return ('cyclic', obs['exception_type'])
 
     # ---- DAG ----
@@ -432,8 +696,13 @@ def check(ctx, case, obs):
     else:
         for j, d, kind in case['edges']:
             ctx.count('numbering_edges_checked')
+            if kind in RES_KINDS and _pyc(case, j):
+                ctx.count('py_consumer_edges_numbering_checked')
+                if created_at[d] > created_at[j]:
+                    ctx.count('py_consumer_created_before_producer')
             if not ids[d] < ids[j]:
-                key = 'order/numbering-ignores-resource-dependency' if kind in ('resource', 'group', 'group_member') else 'order/numbering-not-topological'
+                key = ('order/numbering-ignores-python-call-argument' if kind in RES_KINDS and _pyc(case, j) else
+                       'order/numbering-ignores-resource-dependency' if kind in RES_KINDS else 'order/numbering-not-topological')
                 ctx.violation(key, f'job {j} (number {ids[j]}) depends on job {d} (number {ids[d]}) via {kind}', w)
 
     # executed set
@@ -450,8 +719,12 @@ def check(ctx, case, obs):
             ctx.count('jobs_skipped')
             if any(skipped[p] for p in deps[j]) and not any(failed[p] for p in deps[j]):
                 ctx.count('skipped_via_skipped_parent')
+            if _pyc(case, j) and {k for jj, d, k in case['edges'] if jj == j and d in why[j]} <= set(RES_KINDS):
+                ctx.count('py_consumer_skipped_only_through_call_arguments')
         else:
             ctx.count('jobs_executed')
+            if _pyc(case, j):
+                ctx.count('py_jobs_executed')
             if failed[j]:
                 ctx.count('jobs_failed')
             if case['always'][j] and why[j]:
@@ -461,7 +734,9 @@ def check(ctx, case, obs):
         if ran and skipped[j]:
             only_skipped_parents = not any(failed[p] for p in deps[j])
             kinds = {k for jj, d, k in case['edges'] if jj == j and d in why[j]}
-            if only_skipped_parents:
+            if kinds <= set(RES_KINDS) and _pyc(case, j):
+                key = 'skip/python-consumer-of-failed-or-skipped-producer-ran'
+            elif only_skipped_parents:
                 key = 'skip/child-of-skipped-job-ran'
             elif kinds <= {'resource', 'group', 'group_member'}:
                 key = 'skip/consumer-of-failed-producer-ran'
@@ -482,10 +757,13 @@ def check(ctx, case, obs):
         if j in pos and d in pos:
             ctx.count('execution_edges_checked')
             if not pos[d] < pos[j]:
-                key = 'order/consumer-ran-before-producer' if kind in ('resource', 'group', 'group_member') else 'order/execution-before-dependency'
+                key = ('order/python-consumer-ran-before-producer' if kind in RES_KINDS and _pyc(case, j) else
+                       'order/consumer-ran-before-producer' if kind in RES_KINDS else 'order/execution-before-dependency')
                 ctx.violation(key, f'job {j} ran at position {pos[j]} before its dependency {d} (position {pos[d]}); log {runs}', w)
     for j, d, content in obs['reads']:
         ctx.count('resource_reads_observed')
+        if _pyc(case, j) or _pyc(case, d):
+            ctx.count('py_reads_observed')
         if d in pos and j in pos and pos[d] < pos[j] and content != str(d):
             ctx.violation('order/consumer-did-not-see-producer-output', f'job {j} read {content!r} from the resource of job {d}, which had already run', w)
 
@@ -548,13 +826,16 @@ def _descendants(deps, n):
     return desc
 
 
-def gen_history(rng, plan):
-    """a first sitting (an acyclic gen_case pipeline) followed by 1..2 edit sittings, each closed by run()"""
+def gen_history(rng, plan, py=None):
+    """a first sitting (an acyclic gen_case pipeline) followed by 1..2 edit sittings, each closed by run();
+    py (recording backend only): bash and python jobs mixed, see gen_case"""
     while True:
-        base = gen_case(rng)
+        base = gen_case(rng, py)
         if not base['cyclic'] and base['n'] >= 2:
             break
     n = base['n']
+    py_flags = list(base['py'])
+    p_py = rng.choice(py['p']) if py is not None else 0.0
     edges = {(j, d): k for j, d, k in base['edges']}
     always = list(base['always'])
     fails = list(base['fails'])
@@ -604,6 +885,7 @@ def gen_history(rng, plan):
             always.append(rng.random() < p_always)
             fails.append(rng.random() < p_fail)
             uses_group.append(False)
+            py_flags.append(py is not None and rng.random() < p_py)
         n += k_new
         added = {}
 
@@ -697,11 +979,21 @@ def gen_history(rng, plan):
             if always[x]:
                 add(('always_run', x, None), [create[x]])
         last_cmd = {x: [produce[x]] for x in new}
+        py_consumed = {}
         for (j, d), kind in sorted(added.items()):
             if kind in ('explicit', 'both'):
                 add(('depends_on', j, d), [create.get(j), create.get(d)])
             if kind != 'explicit':
-                i = add(('consume', j, (d, kind)), [produce.get(j), produce.get(d)])
+                if py_flags[j]:
+                    py_consumed.setdefault(j, []).append((d, kind))
+                    continue
+                arg = (d, kind, rng.choice(PY_FILE_REFS)) if py_flags[d] else (d, kind)
+                i = add(('consume', j, arg), [produce.get(j), produce.get(d)])
+                if j in last_cmd:
+                    last_cmd[j].append(i)
+        for j in sorted(py_consumed):
+            for call in gen_pycalls(rng, j, py_consumed[j], py_flags, raw_ok=True):  # recording backend: nothing is unpickled
+                i = add(('pycall', j, call), [produce.get(j)] + [produce.get(d) for d, _, _ in call['parts']])
                 if j in last_cmd:
                     last_cmd[j].append(i)
         for x in new:
@@ -718,7 +1010,7 @@ def gen_history(rng, plan):
             'ops': [list(ops[i]) for i in order], 'dry': rng.random() < p_dry, 'mode': mode, 'cycle_shape': shape,
         })
     return {'backend': 'plan' if plan else 'local', 'n': n, 'always': always, 'fails': fails, 'uses_group': uses_group,
-            'stages': stages}
+            'py': py_flags, 'stages': stages}
 
 
 def make_plan_backend():
@@ -770,6 +1062,7 @@ def execute_history(hb, hist):
         backend = make_plan_backend() if plan else hb.LocalBackend(tmp_dir=scratch)
         b = hb.Batch(backend=backend, name='c17h')
         jobs = {}
+        results = {}
         consumed = 0
         sink = io.StringIO()
         with warnings.catch_warnings(), contextlib.redirect_stdout(sink):
@@ -779,7 +1072,7 @@ def execute_history(hb, hist):
                 obs['stages'].append(so)
                 try:
                     for name, j, arg in stage['ops']:
-                        apply_op(b, jobs, hist, qlog, name, j, arg)
+                        apply_op(b, jobs, hist, qlog, name, j, arg, results)
                 except Exception as e:
                     so['build_error'] = repr(e)
                     break
@@ -836,6 +1129,11 @@ def check_history(ctx, hist, obs):
     always, fails = hist['always'], hist['fails']
     w = {'history': hist, 'observed': obs}
     ctx.count('histories_' + bk)
+    if any(hist.get('py') or ()):
+        ctx.count('plan_py_histories')
+        for st, so in zip(hist['stages'], obs['stages']):
+            if not so.get('build_error'):
+                count_python_calls(ctx, st['ops'], 'plan_py_')
     n = 0
     edges = {}
     done = set()  # executed in an earlier (real) run
@@ -905,6 +1203,8 @@ def check_history(ctx, hist, obs):
                 ctx.count('history_cyclic_rejected_before_any_marker')
                 if rerun:
                     ctx.count('rerun_cyclic_rejected_before_any_marker')
+                if any(j in cyc and d in cyc and k in RES_KINDS and _pyc(hist, j) for (j, d), k in edges.items()):
+                    ctx.count('plan_py_cycle_through_call_argument_rejected')
                 ctx.seen('cycle_rejection_exception', so['exception_type'])
             numbered |= set(range(n))
             earlier.append('rejected')
@@ -936,8 +1236,13 @@ def check_history(ctx, hist, obs):
                         ctx.count('rerun_numbered_job_depends_on_new_job')
                 else:
                     ctx.count('history_first_numbering_edges_checked')
+                if kind in RES_KINDS and _pyc(hist, j):
+                    ctx.count('plan_py_consumer_edges_numbering_checked')
+                    if rerun and [j, d, kind] in stage['edges_added'] and j < min(stage['new_jobs'], default=n):
+                        ctx.count('plan_py_call_added_to_numbered_job')
                 if not ids[d] < ids[j]:
-                    key = (f'order/{tag}numbering-ignores-resource-dependency' if kind in ('resource', 'group', 'group_member')
+                    key = (f'order/{tag}numbering-ignores-python-call-argument' if kind in RES_KINDS and _pyc(hist, j) else
+                           f'order/{tag}numbering-ignores-resource-dependency' if kind in ('resource', 'group', 'group_member')
                            else f'order/{tag}numbering-not-topological')
                     ctx.violation(key, f'sitting {s}: job {j} (number {ids[j]}) depends on job {d} (number {ids[d]}) via {kind}', w)
 
@@ -996,7 +1301,8 @@ def check_history(ctx, hist, obs):
             if j in pos and d in pos:
                 ctx.count('rerun_execution_edges_checked' if rerun else 'history_first_execution_edges_checked')
                 if not pos[d] < pos[j]:
-                    key = (f'order/{tag}consumer-ran-before-producer' if kind in ('resource', 'group', 'group_member')
+                    key = (f'order/{tag}python-consumer-ran-before-producer' if kind in RES_KINDS and _pyc(hist, j) else
+                           f'order/{tag}consumer-ran-before-producer' if kind in ('resource', 'group', 'group_member')
                            else f'order/{tag}execution-before-dependency')
                     ctx.violation(key, f'sitting {s}: job {j} ran at position {pos[j]} before its dependency {d} (position {pos[d]}); log {runs}', w)
             elif d in pos and j in done:
@@ -1026,7 +1332,64 @@ def check_history(ctx, hist, obs):
     return tuple(outcome)
 
 
+PY_EXEC = {'p': [0.0, 0.15, 0.3], 'n_max': 5, 'force': 0.85, 'fail_producer': 0.5, 'raw': 'non_always_run_consumers'}
+PY_PLAN = {'p': [0.0, 0.25, 0.5, 0.8], 'n_max': 8, 'force': 0.3, 'raw': 'always'}
+
+
+def setup_python_jobs(ctx):
+    """make `python3 -c "import dill ..."` (the wrapper PythonJob._compile emits; LocalBackend runs it through bash when the
+    job has no image) work in the job subprocesses: this interpreter first on PATH, the `dill` this process uses and the
+    module of the called functions on PYTHONPATH.  Returns (tempdir, saved environment, self-test error or None)."""
+    import importlib
+    import subprocess
+    import sys
+
+    import dill
+
+    d = tempfile.mkdtemp(prefix='vf-c17py-')
+    with open(os.path.join(d, PYFUNCS_MODULE + '.py'), 'w') as f:
+        f.write(PYFUNCS_SOURCE)
+    sys.path.insert(0, d)
+    importlib.invalidate_caches()
+    _PYF['mod'] = importlib.import_module(PYFUNCS_MODULE)
+    saved = {k: os.environ.get(k) for k in ('PATH', 'PYTHONPATH')}
+    dill_home = os.path.dirname(os.path.dirname(os.path.abspath(dill.__file__)))
+    os.environ['PYTHONPATH'] = os.pathsep.join([d, dill_home] + ([saved['PYTHONPATH']] if saved['PYTHONPATH'] else []))
+    os.environ['PATH'] = os.path.dirname(os.path.abspath(sys.executable)) + os.pathsep + (saved['PATH'] or '')
+    probe = (f'import sys, dill, {PYFUNCS_MODULE} as m; '
+             f'assert sys.version_info[:2] == {tuple(sys.version_info[:2])!r}; assert dill.loads(dill.dumps(m.produce)) is m.produce')
+    try:
+        r = subprocess.run(['/bin/bash', '-c', 'python3 -c ' + shlex.quote(probe)], capture_output=True, timeout=120)
+        err = None if r.returncode == 0 else r.stderr.decode(errors='replace')[-300:]
+    except Exception as e:  # noqa: BLE001
+        err = repr(e)
+    return d, saved, err
+
+
+def teardown_python_jobs(d, saved):
+    import sys
+
+    for k, v in saved.items():
+        if v is None:
+            os.environ.pop(k, None)
+        else:
+            os.environ[k] = v
+    if d in sys.path:
+        sys.path.remove(d)
+    sys.modules.pop(PYFUNCS_MODULE, None)
+    _PYF['mod'] = None
+    shutil.rmtree(d, ignore_errors=True)
+
+
 def run(ctx):
+    pydir, saved_env, py_err = setup_python_jobs(ctx)
+    try:
+        _run(ctx, py_err)
+    finally:
+        teardown_python_jobs(pydir, saved_env)
+
+
+def _run(ctx, py_err):
     import hailtop.batch as hb
 
     import gc
@@ -1036,6 +1399,24 @@ def run(ctx):
     gc.disable()
     N = ctx.pick(150, 800)  # ~0.05 s per pipeline on an idle core (fork/exec bound: several times slower on a loaded machine)
     ctx.set_time_budget(ctx.pick(480, 1500))  # machine-load safety net below the watchdog; the floors decide whether enough was seen
+
+    # pipelines of bash AND python jobs, really executed by the LocalBackend (a python job costs one interpreter start per
+    # .call(): few and small pipelines; the recording-backend histories below carry the bulk of the python-job numbering cases)
+    if py_err is not None:
+        ctx.inconclusive_because(f'python jobs cannot be executed here (python3 + dill + function module self-test failed): {py_err}')
+    for i, rng in ctx.cases(0 if py_err is not None else ctx.pick(40, 150), phase='python'):
+        case = gen_case(rng, PY_EXEC)
+        obs = execute(hb, case)
+        gc.collect()
+        outcome = check(ctx, case, obs)
+        ctx.seen('outcome_kinds', outcome[0] if isinstance(outcome, tuple) else outcome)
+        key = ('py', tuple(map(tuple, case['edges'])), tuple(case['always']), tuple(case['fails']), tuple(case['py']),
+               tuple(j for name, j, _ in case['ops'] if name == 'create'),
+               tuple(repr(arg) for name, _, arg in case['ops'] if name == 'pycall'))
+        ctx.case(sample={'case': {k: v for k, v in case.items() if k != 'ops'},
+                         'python_calls': [[j, arg] for name, j, arg in case['ops'] if name == 'pycall'], 'observed': obs},
+                 key=key, nontrivial=case['n'] >= 2 and len(case['edges']) >= 1 and any(case['py']))
+
     for i, rng in ctx.cases(N):
         case = gen_case(rng)
         obs = execute(hb, case)
@@ -1050,14 +1431,15 @@ def run(ctx):
     # run / edit / re-run histories on one Batch object: real LocalBackend (bash subprocesses) and the recording backend
     for phase, plan, M in (('history', False, ctx.pick(60, 300)), ('history_plan', True, ctx.pick(300, 1600))):
         for i, rng in ctx.cases(M, phase=phase):
-            hist = gen_history(rng, plan)
+            hist = gen_history(rng, plan, PY_PLAN if plan else None)
             obs = execute_history(hb, hist)
             gc.collect()
             outcome = check_history(ctx, hist, obs)
             ctx.seen('history_outcome_kinds', '>'.join(o[0] if isinstance(o, tuple) else str(o) for o in outcome))
-            key = (hist['backend'], tuple(hist['always']), tuple(hist['fails']),
+            key = (hist['backend'], tuple(hist['always']), tuple(hist['fails']), tuple(hist['py']),
                    tuple((st['dry'], len(st['new_jobs']), tuple(map(tuple, st['edges_added'])),
-                          tuple(j for name, j, _ in st['ops'] if name == 'create')) for st in hist['stages']))
+                          tuple(j for name, j, _ in st['ops'] if name == 'create'),
+                          tuple(repr(arg) for name, _, arg in st['ops'] if name == 'pycall')) for st in hist['stages']))
             ctx.case(sample={'history': {k: ([{a: b for a, b in st.items() if a != 'ops'} for st in v] if k == 'stages' else v)
                                          for k, v in hist.items()}, 'observed': obs},
                      key=key, nontrivial=len(hist['stages']) >= 2)
